@@ -4,6 +4,7 @@ from spacepackets.ecss.tc import PusTc, PusTcDataFieldHeader
 from spacepackets.ecss import check_pus_crc
 from spacepackets.ccsds.spacepacket import SpacePacketHeader, PacketType, SequenceFlags
 from harness import pus_common as pc
+from harness import core
 
 ID = "C02"
 ENUMS = [
@@ -94,11 +95,7 @@ def _canon(e):
 
 
 def _enum(cls, v):
-    """the library's own enum member where one exists (what a caller would pass), else the bare int"""
-    try:
-        return cls(v)
-    except ValueError:
-        return v
+    return core.enum_or_int(cls, v)
 
 
 def _mk_sph(ptype, apid, count, dlen, shf, flags, version):
